@@ -464,6 +464,160 @@ func gen(a Args, out *Out) {
 		h.Size()
 		emit("fanout", h)
 	}
+	// 10. cancels as environment: other timers are started and cancelled around the ones
+	// under observation — before the worker accepted their start request (either order of
+	// the two requests), after acceptance, with the cancel request served only after ticks
+	// — and every timer that was NOT cancelled must still fire exactly once on its due tick
+	for k := 0; k < 60*scale; k++ {
+		r := rng.Fork()
+		impl := int64(drv.ImplWheel)
+		if k%4 == 3 {
+			impl = drv.ImplHeap
+		}
+		tt0 := int64(r.PickI64(0, 1000))
+		h := drv.NewHist(impl, startPos(r), tt0)
+		now := tt0
+		var dues []int64
+		nObs := r.Range(1, 3)
+		for i := 0; i < nObs; i++ {
+			d := shortDelay(r) + 2
+			h.Start(d)
+			h.HandleAdd()
+			dues = append(dues, now+d)
+		}
+		nEnv := r.Range(1, 3)
+		for i := 0; i < nEnv; i++ {
+			d := int64(r.Range(0, 40))
+			var id int64
+			if r.Chance(1, 4) {
+				id = h.Every(d + 1)
+			} else {
+				id = h.Start(d)
+			}
+			switch r.Intn(4) {
+			case 0: // cancelled before accepted; cancel request served first
+				h.Cancel(id)
+				h.HandleDel()
+				h.HandleAdd()
+			case 1: // cancelled before accepted; start request served first
+				h.Cancel(id)
+				h.HandleAdd()
+				h.HandleDel()
+			case 2: // accepted, cancelled, unlinked at once
+				h.HandleAdd()
+				h.Cancel(id)
+				h.HandleDel()
+			default: // accepted, cancelled, ticks, unlinked later
+				h.HandleAdd()
+				h.Cancel(id)
+				adv := int64(r.Range(1, 3))
+				h.Adv(adv)
+				now += adv
+				h.HandleDel()
+			}
+			if r.Chance(1, 3) {
+				h.Size()
+			}
+		}
+		h.Probe()
+		walk(h, r, now, dues, 20000, int64(r.Range(1, 60)))
+		h.Size()
+		for i := int64(1); i <= int64(nObs); i++ {
+			h.IsSched(i)
+		}
+		h.Probe()
+		emit("env-cancel", h)
+	}
+
+	// id reuse: a timer is cancelled but its node is still around — linked in the structure
+	// with the cancel request not yet served, or still in the start queue — when the id
+	// counter wraps and hands the SAME id to a new timer.  The old node must not pass for
+	// the new timer: it is dropped silently when its slot comes up / when it is accepted,
+	// the new timer fires on its own due tick and stays scheduled until then.  All orders
+	// of the worker's ready inputs.  (The counter is positioned by the harness.)
+	for k := 0; k < 10*scale && k < 10*8; k++ {
+		for _, impl := range []int64{drv.ImplWheel, drv.ImplHeap} {
+			r := rng.Fork()
+			h := drv.NewHist(impl, startPos(r), 0)
+			const maxInt = int64(^uint64(0) >> 1)
+			nPre := r.Range(0, 2)
+			used := map[int64]bool{}
+			pick := func(lo, hi int) int64 {
+				for {
+					d := int64(r.Range(lo, hi))
+					if !used[d] {
+						used[d] = true
+						return d
+					}
+				}
+			}
+			for i := 0; i < nPre; i++ {
+				h.Start(pick(20, 50))
+				h.HandleAdd()
+			}
+			d1 := pick(3, 14)
+			t1 := h.Start(d1) // visible id nPre+1
+			mode := k % 4
+			switch mode {
+			case 0: // accepted; cancelled; cancel request NOT served before the reuse
+				h.HandleAdd()
+				h.Cancel(t1)
+			case 1: // cancelled before accepted; neither request served before the reuse
+				h.Cancel(t1)
+			case 2: // cancelled before accepted; cancel request served, start request not
+				h.Cancel(t1)
+				h.HandleDel()
+			default: // accepted; cancelled and unlinked: nothing of the old node is left
+				h.HandleAdd()
+				h.Cancel(t1)
+				h.HandleDel()
+			}
+			h.IsSched(t1)
+			// wrap: the counter is set so that the next start gets t1's id again
+			if r.Bool() {
+				h.Jump(t1 - 1)
+			} else if nPre == 0 {
+				h.Jump(maxInt) // MaxInt+1 wraps, restarts at 1 = t1
+			} else {
+				h.Jump(t1 - 1)
+			}
+			d2 := pick(2, 18)
+			h.Start(d2) // the new owner of the id
+			switch r.Intn(3) {
+			case 0:
+				h.HandleAdd()
+				h.HandleAdd()
+				h.HandleDel()
+			case 1:
+				h.HandleDel()
+				h.HandleAdd()
+				h.HandleAdd()
+			default:
+				h.HandleAdd()
+			}
+			h.IsSched(t1)
+			h.Size()
+			h.Probe()
+			for tck := 0; tck < 20; tck++ {
+				h.Adv(1)
+				if tck == 5 {
+					h.HandleAdd()
+					h.HandleDel()
+					h.IsSched(t1)
+				}
+			}
+			h.HandleAdd()
+			h.HandleDel()
+			for tck := 0; tck < 34; tck++ {
+				h.Adv(1)
+			}
+			h.Size()
+			h.IsSched(t1)
+			h.Probe()
+			emit("idreuse", h)
+		}
+	}
+
 	// 9. the REAL worker goroutine with nobody reading Chan() (see drv.Live): every one-shot
 	// timer is delivered exactly once or cancelled, and a timer received from Chan() is no
 	// longer reported by IsScheduled() / counted by Size() — also while the worker is still
